@@ -689,10 +689,10 @@ End Json.
    the text is a JSON number; it has '.' or an exponent iff the float is not an integer below
    1e21; and in that case at most 19 digits precede the '.' / exponent (so ParseInt stops at the
    '.' with ErrSyntax before its accumulator can overflow) *)
+Definition float_text_frac (t : bytes) : bool :=
+  json_number t && has_dot_or_e t && Nat.leb (int_prefix_len t) 19.
 Definition float_text_ok (f : N) (t : bytes) : bool :=
-  json_number t &&
-  (if f64_integral_small f then negb (has_dot_or_e t)
-   else has_dot_or_e t && Nat.leb (int_prefix_len t) 19).
+  if f64_integral_small f then json_number t && negb (has_dot_or_e t) else float_text_frac t.
 
 (* the two shapes DAG-JSON reserves *)
 Definition reserved_shape (m : list (bytes * dm)) : bool :=
